@@ -677,13 +677,13 @@ def build(unit_dir, repo='/repo', mutate=None, auto_items=None, vacuity=False):
             text = re.sub(r'^((?:\s*#\[[^\]]*\]\s*)*)', lambda m: m.group(1) + 'pub ', text, count=1)
         if ch.auto and is_fn and key not in contracts:
             au = autospec_for(text, key)
-            g.auto_items.append({'item': key, 'file': ch.file, 'line': ch.first_line, 'autospec': bool(au)})
+            g.auto_items.append({'item': key, 'file': ch.file, 'line': ch.first_line, 'autospec': bool(au), 'is_fn': True})
             if au:
                 emit(rewrite_paths(au[0], counts))
                 contracts[key] = au[1]
                 _count(counts, 'R14.autospec')
         elif ch.auto:
-            g.auto_items.append({'item': key, 'file': ch.file, 'line': ch.first_line, 'autospec': False})
+            g.auto_items.append({'item': key, 'file': ch.file, 'line': ch.first_line, 'autospec': False, 'is_fn': bool(is_fn)})
         if key in contracts:
             used_contracts.add(key)
             c = contracts[key]
